@@ -62,7 +62,7 @@ var rsaLabel = map[string]x509.SignatureAlgorithm{"sha1": x509.SHA1WithRSA, "sha
 
 var mutations = []string{"none", "none", "none", "pad_byte", "pad_byte", "block_type", "leading", "separator", "trailing_garbage", "shift_left", "short_pad_zero_tail",
 	"digestinfo_byte", "digestinfo_byte", "digest_byte", "other_hash_info", "wrong_digest", "sig_bit", "tbs_bit", "no_padding", "all_zero_pad",
-	"sig_extra_tail", "sig_truncated", "sig_leading_zero"}
+	"sig_extra_tail", "sig_truncated", "sig_leading_zero", "digestinfo_trailing_in_seq", "algid_trailing", "only_digestinfo"}
 
 func pick[T any](r *sim.Rng, xs []T) T { return xs[r.Intn(len(xs))] }
 
@@ -269,6 +269,45 @@ func buildEM(p *APlan, k int, tbs []byte) (em []byte, wellFormed bool, ok bool) 
 			em[i] = 0xff
 		}
 		copy(em[pe+1:], t2)
+		wellFormed = false
+	case "digestinfo_trailing_in_seq", "algid_trailing":
+		// a DigestInfo that is still a length-consistent DER value, with further octets inside the outer SEQUENCE
+		// (after the digest) or inside the AlgorithmIdentifier (after the parameters); the FF run is shortened to fit
+		g := 1 + p.Pos%8
+		extra := make([]byte, g)
+		for i := range extra {
+			extra[i] = byte(p.Val + i)
+		}
+		if p.Val%3 == 0 {
+			extra = append([]byte{0x05, byte(g - 1)}, make([]byte, g-1)...)[:g] // looks like another NULL / primitive
+			if g == 1 {
+				extra = []byte{0x00}
+			}
+		}
+		pf := append([]byte(nil), prefix...)
+		var t2 []byte
+		if p.Mutation == "digestinfo_trailing_in_seq" {
+			pf[1] += byte(g)
+			t2 = append(append(pf, digest...), extra...)
+		} else {
+			end := 4 + int(pf[3]) // end of the AlgorithmIdentifier contents
+			pf[1] += byte(g)
+			pf[3] += byte(g)
+			t2 = append(append(append(append([]byte(nil), pf[:end]...), extra...), pf[end:]...), digest...)
+		}
+		if k < len(t2)+11 || int(prefix[1])+g > 127 {
+			return nil, false, false
+		}
+		copy(em[2:], make([]byte, k-2))
+		pe := k - len(t2) - 1
+		for i := 2; i < pe; i++ {
+			em[i] = 0xff
+		}
+		copy(em[pe+1:], t2)
+		wellFormed = false
+	case "only_digestinfo":
+		// no block type, no padding: zeros up to the DigestInfo
+		copy(em, make([]byte, k-len(t)))
 		wellFormed = false
 	case "wrong_digest":
 		hh := h.New()
